@@ -14,7 +14,7 @@ use serde::{Deserialize, Serialize};
 use std::num::NonZeroU64;
 
 pub const RULE: &str = "case = (decimal, kind in {Display, e, E}, precision N or none, flags: fill/align, '+', '0', width); {:.N} must print exactly N fraction digits denoting round_to_scale(x, N, configured mode) (or the unpadded exact value beyond the padding limit), {:.Ne}/{:.NE} a mantissa with N fraction digits denoting round_to_prec(x, N+1), both agreeing with the library's own with_scale_round / with_precision_round; any flagged output must equal the pad_integral model applied to the unflagged numeral; value and reference must print identically; non-trivial = rounding discards non-zero digits or a flag adds characters; distinct = enumerated tuples / structural hash";
-pub const EXPLANATION: &str = "Oracles: rounding oracle + reference numeral evaluator for the digits; a model of Formatter::pad_integral (validated against std integer formatting) for the flags. All 312 literal format strings (13 fill/align choices x '+' x '0' x 3 kinds x precision present/absent) are compiled into the harness; width and precision are supplied at run time. The configured rounding mode and padding limit are read from the build environment.";
+pub const EXPLANATION: &str = "Oracles: rounding oracle + reference numeral evaluator for the digits; a model of Formatter::pad_integral (validated against std integer formatting) for the flags. All 456 literal format strings (19 fill/align choices, two of them non-ASCII fills x '+' x '0' x 3 kinds x precision present/absent) are compiled into the harness; width and precision are supplied at run time. The configured rounding mode and padding limit are read from the build environment.";
 
 #[derive(Clone, Debug, Hash, Serialize, Deserialize)]
 pub struct FmtCase {
@@ -175,11 +175,11 @@ fn small_case(i: u64, limit: u64) -> Option<FmtCase> {
     k /= 12;
     let val = k as i64 - (limit as i64 - 1);
     // flags vary deterministically with the index so the exhaustive sweep also exercises them
-    let fa = (i % 13) as u8;
+    let fa = (i % 19) as u8;
     Some(FmtCase { d: D::new(val.to_string(), scale), kind, prec: Some(n), fill_align: fa, plus: i % 2 == 1, zero: (i / 2) % 3 == 0, width: (i % 19) as u16 })
 }
 
-const TAIL_SHAPES: &[u8] = &[0, 1, 5, 6, 7, 8, 10, 2, 4];
+const TAIL_SHAPES: &[u8] = &[0, 1, 5, 6, 7, 8, 10, 2, 4, 14, 14];
 
 fn fmt_strategy(max_len: usize) -> BoxedStrategy<FmtCase> {
     let scale = prop_oneof![5 => -20i64..=60, 2 => -1100i64..=400, 1 => -30i64..=-1];
@@ -204,6 +204,8 @@ fn fmt_strategy(max_len: usize) -> BoxedStrategy<FmtCase> {
                     _ => Some((cut - 1).clamp(0, 1100) as u32),
                 },
                 (5, Some(_)) if kind == Kind::Disp => Some((scale - nd - 1).clamp(0, 1100) as u32), // value below half a unit of the last place
+                (6, Some(_)) if kind == Kind::Disp => Some((scale - nd).clamp(0, 1100) as u32),     // rounding point just left of the first digit
+                (7, Some(_)) if kind == Kind::Disp => Some((scale - nd + 1).clamp(0, 1100) as u32), // keep exactly one digit
                 (_, p) => p,
             };
             FmtCase { d: D::new(if neg && digits != "0" { format!("-{}", digits) } else { digits }, scale), kind, prec, fill_align, plus, zero, width }
@@ -226,9 +228,9 @@ pub fn run(ctx: &Ctx) {
     ctx.enumerated(
         "flag-matrix",
         "fmt",
-        13 * 2 * 2 * 3 * 2 * 41 * 4,
+        19 * 2 * 2 * 3 * 2 * 41 * 4,
         true,
-        "EXHAUSTIVE: 13 fill/align choices x '+' x '0' x 3 kinds x precision {none, 2} x width 0..40 x 4 values",
+        "EXHAUSTIVE: 19 fill/align choices (fills space * 0 # U+2192 U+00E9) x '+' x '0' x 3 kinds x precision {none, 2} x width 0..40 x 4 values",
         |i| {
             let mut k = i;
             let val = [D::new("12345", 2), D::new("-12345", 2), D::new("0", 0), D::new("-5", 4)][(k % 4) as usize].clone();
